@@ -97,8 +97,8 @@ def main():
     rest = [c for c in cases if 2 < len(c["comps"]) < 11]
     rng.shuffle(rest)
     # (thorough: TLC has model-checked every component set; one crate of all of them no longer type-checks within the hour,
-    #  so the replay takes every small and every (nearly) full set plus a seeded 15 000 of the others)
-    sel = small + full + rest[:(15000 if thorough else 1500)]
+    #  so the replay takes every small and every (nearly) full set plus a seeded 5 000 of the others)
+    sel = small + full + rest[:(5000 if thorough else 1500)]
     chk.cov["component_sets_model_checked"] = len(cases)
     crate = vf.Crate(os.path.join(chk.work, "crate"), "c09cases", deps=["async-trait"])
     for c in sel:
